@@ -279,7 +279,7 @@ def idxFont : BitFont := { w := 8, h := 8, length := 256, glyphs := (List.range 
 def idxBox : BinFormats.Font := ⟨[70], 8, (List.range 256).flatMap fun g => List.replicate 8 g⟩
 def boxPal : List Rgb := (List.range 16).map fun i => (expand6 (i * 3), expand6 (63 - i), expand6 (i * 4))
 /-- XBin, custom palette AND custom font, compressed, with SAUCE -/
-def xbBoxPic : Pic := ⟨2, 1, [[⟨0x41, ⟨7, 0, 0, 0⟩⟩, ⟨0x42, ⟨12, 1, 0, 0⟩⟩]], .ice, boxPal, [(0, idxBox)]⟩
+def xbBoxPic : Pic := ⟨2, 1, [[⟨0x41, ⟨7, 0, 0, 0⟩⟩, ⟨0x42, ⟨12, 1, 0, 0⟩⟩]], .ice, boxPal, [(0, idxBox)], none⟩
 example : Representable .xb ⟨true, true⟩ xbBoxPic = true := by decide +kernel
 example : boxFont [70] idxFont = some idxBox := by decide +kernel
 example : fontBlocks .xb ⟨true, true⟩ xbBoxPic = [(0, 59, 2048)] := by decide +kernel
@@ -292,8 +292,8 @@ example : (match save .xb ⟨true, true⟩ boxDate xbBoxPic with
 /-- **The former counterexample** (finding `xbin_font_named_default`, repaired): an 8x16 font NAMED like the built-in
     default font whose glyphs are all zero is in the domain of `xb_font_rt`, IS embedded (font block behind the header,
     flag set) and its own glyphs are read back — not the built-in ones.  And the built-in font itself is still left out. -/
-def namedPic : Pic := ⟨1, 1, [[⟨0x41, ⟨7, 0, 0, 0⟩⟩]], .blink, dosPalette, [(0, ⟨BinFmt.defaultFontName, 16, List.replicate 4096 0⟩)]⟩
-def builtinPic : Pic := ⟨1, 1, [[⟨0x41, ⟨7, 0, 0, 0⟩⟩]], .blink, dosPalette, [(0, defaultFont)]⟩
+def namedPic : Pic := ⟨1, 1, [[⟨0x41, ⟨7, 0, 0, 0⟩⟩]], .blink, dosPalette, [(0, ⟨BinFmt.defaultFontName, 16, List.replicate 4096 0⟩)], none⟩
+def builtinPic : Pic := ⟨1, 1, [[⟨0x41, ⟨7, 0, 0, 0⟩⟩]], .blink, dosPalette, [(0, defaultFont)], none⟩
 theorem xb_named_default_embedded :
     (Representable .xb ⟨true, false⟩ namedPic = true ∧ fontBlocks .xb ⟨true, false⟩ namedPic = [(0, 11, 4096)] ∧
       fontBlocks .xb ⟨true, false⟩ builtinPic = []) ∧
